@@ -16,6 +16,12 @@ NOTES = {
  'C17-b': 'missed at first: injected I/O faults were all OSErrors and every payload was serialisable -> non-OSError open/write faults, payloads the JSON serialiser refuses (bytes, unknown objects)',
  'C06-c': 'missed at first (same patch as C11-a): C06 profiles had no raising handlers on parallel buses -> `errors_parallel` added to C06',
  'C05-c': 'missed at first: (1) the C05 window ended when the await returned, although the statement runs it to the child\'s completion -> window extended (with the C04 cause of the early return as cause), (2) the early return was attributed to known finding F1 -> F1 now requires that the run loop got its chance before the await began or while the awaiter was processing another event inline',
+ 'C11-c': 'missed at first: handlers only raised application exceptions -> exceptions the library itself uses for control flow (QueueShutDown, QueueFull, "Event loop is closed", TimeoutError) are raised by handlers too; the unchanged tree then showed genuine defect F24 (fixed)',
+ 'C08-c': 'missed at first: handlers returned scalars only and accessors were not part of the frozen-after-completion snapshot -> container return values (`ret`), `results` op with event_results_flat_list/by_handler_id after completion, snapshot compares result *contents*',
+ 'C14-c': 'missed at first: no handler was ever cancelled between a suspension point inside the inline polling loop -> `timeouts_burn` (handler overruns its deadline with CPU burn while a backlog is queued, so the cancellation lands at the very next suspension point)',
+ 'C16-c': 'missed at first: stop() was only injected while the victim bus was idle or alone -> rich stop scenarios (`stop_enum` variant with >=2 buses, backlog on the victim, an inline awaiter on another bus, stop at every step k)',
+ 'C18-c': 'missed at first: generated timeouts were all positive -> timeout 0 / 0.0 included in `expect` and `expect_enum`',
+ 'C20-c': 'missed at first: (1) run_in_executor/to_thread had no simulated counterpart (real threads forbidden) -> thread hop modelled as a deferred call after 1 ms, (2) simulated time.time() started at 0 so the "every 5 s" overload check never ran -> epoch-like base, (3) no cancellation right after arrival -> `cancel_at` = arrival + epsilon',
  'C04-c': 'missed at first: C04 profiles had no handler timeouts -> `timeouts` added to C04 (and F5b recognised there)',
 }
 out = ['| seeded id | property | change (by an independent sub-agent) | needs | caught by (quick check: clauses) | note |', '|---|---|---|---|---|---|']
